@@ -154,4 +154,31 @@ def toEv : Vis → Option Ev
   | .cancelDone tok => some (.cancelDone tok)
   | .joined i => some (.joined i)
 
+/-! ## the events an observer of a run sees (used by `Props/C42.lean`: model ⊨ spec) -/
+
+open Lumina.Spec.C42 (Ev) in
+/-- events emitted by one model step, in the spec's vocabulary.  A joiner awaiting the handle is
+    taken to return as soon as the token is triggered (the earliest it can). -/
+def evOf (s : State) : Label → List Ev
+  | .spawn c tok => [.spawn s.tasks.length c tok]
+  | .begin i =>
+    match s.tasks[i]? with
+    | some t => if t.pc = .ready ∧ isCancelled s t = true then [.ended i] else []
+    | none => []
+  | .inner i b => if b = .pending then [.poll i] else [.poll i, .ended i]
+  | .abort i => [.ended i]
+  | .dropGuard i => [.joined i]
+  | .cancel tok => [.cancelDone tok]
+
+open Lumina.Spec.C42 (Ev) in
+def traceOf (s : State) : List Label → Option (State × List Ev)
+  | [] => some (s, [])
+  | l :: ls =>
+    match step s l with
+    | none => none
+    | some s1 =>
+      match traceOf s1 ls with
+      | none => none
+      | some (s2, tr) => some (s2, evOf s l ++ tr)
+
 end Lumina.Model.Tasks
